@@ -86,6 +86,21 @@ func init() {
 		}
 		return tlogHashHex(h)
 	}
+	// the independent specification (lean/ModVerif/Spec/RFC6962.lean): MTH against this harness's own recursion,
+	// the layout against the real SplitStoredHashIndex over a dense store
+	impls["tlog.specmth"] = func(a []string) string { return tlogHashHex(rfcMTH(tlogRecords(a[0]))) }
+	impls["tlog.speclayout"] = func(a []string) string {
+		cnt := tlog.StoredHashCount(tlogI64(a[0]))
+		if cnt == 0 {
+			return "_"
+		}
+		out := make([]string, cnt)
+		for p := int64(0); p < cnt; p++ {
+			l, k := tlog.SplitStoredHashIndex(p)
+			out[p] = fmt.Sprintf("%d.%d", l, k)
+		}
+		return strings.Join(out, ",")
+	}
 	register(&Prop{ID: "C09", Gen: genC09, Oracle: oracleC09,
 		Rule: "record sequences of length 0-64 (thorough 0-400) with synthetic, random and adversarial contents (records that look like interior nodes 0x01||h||h, empty, duplicates): whole store after one-at-a-time appends, tree hash for every m<=n (and m>n: reader error); (level, offset) coordinates up to 2^40 and boundary probes near 2^61/2^62 for index/split/count; tree heads, records, hashes and JSON through their text codecs: valid, one mutation from valid, boundary (int64 edges, leading zeros, signs, 1e6 length, CR/LF inside base64, non-canonical trailing bits, invalid UTF-8, control characters, blank lines) and random; non-trivial = a well-formed input or one mutation from one; distinct by op line"})
 }
@@ -348,6 +363,8 @@ func genC09(g *Gen, n int) {
 			}
 			tok, _ := c09RecTok(g.Rand, k)
 			g.Emit("tlog.storedhashes "+tok, true, "store")
+			g.Emit("tlog.specmth "+tok, true, "spec-mth")
+			g.Emit(fmt.Sprintf("tlog.speclayout %d", g.Intn(3*maxLen)), true, "spec-layout")
 		case 1, 2:
 			k := g.Intn(maxLen + 1)
 			tok, _ := c09RecTok(g.Rand, k)
